@@ -223,6 +223,8 @@ fn inline_image(lexer: &mut Lexer, resolve: &impl Resolve) -> Result<Arc<ImageXO
 
 struct OpBuilder {
     last: Point,
+    // start of the current subpath: where `h` (and the implicit close of `re`) leaves the current point
+    start: Point,
     compability_section: bool,
     ops: Vec<Op>
 }
@@ -230,6 +232,7 @@ impl OpBuilder {
     fn new() -> Self {
         OpBuilder {
             last: Point { x: 0., y: 0. },
+            start: Point { x: 0., y: 0. },
             compability_section: false,
             ops: Vec::new()
         }
@@ -342,7 +345,10 @@ impl OpBuilder {
             "G"   => push(Op::StrokeColor { color: Color::Gray(number(&mut args)?) }),
             "g"   => push(Op::FillColor { color: Color::Gray(number(&mut args)?) }),
             "gs"  => push(Op::GraphicsState { name: name(&mut args)? }),
-            "h"   => push(Op::Close),
+            "h"   => {
+                push(Op::Close);
+                self.last = self.start;
+            }
             "i"   => push(Op::Flatness { tolerance: number(&mut args)? }),
             "ID"  => bail!("Parse Error. Unexpected 'ID'"),
             "j"   => {
@@ -382,13 +388,19 @@ impl OpBuilder {
                 let p = point(&mut args)?;
                 push(Op::MoveTo { p });
                 self.last = p;
+                self.start = p;
             }
             "M"   => push(Op::MiterLimit { limit: number(&mut args)? }),
             "MP"  => push(Op::MarkedContentPoint { tag: name(&mut args)?, properties: None }),
             "n"   => push(Op::EndPath),
             "q"   => push(Op::Save),
             "Q"   => push(Op::Restore),
-            "re"  => push(Op::Rect { rect: rect(&mut args)? }),
+            "re"  => {
+                let rect = rect(&mut args)?;
+                push(Op::Rect { rect });
+                self.start = Point { x: rect.x, y: rect.y };
+                self.last = self.start;
+            }
             "RG"  => push(Op::StrokeColor { color: Color::Rgb(rgb(&mut args)?) }),
             "rg"  => push(Op::FillColor { color: Color::Rgb(rgb(&mut args)?) }),
             "ri"  => {
@@ -553,6 +565,7 @@ pub fn serialize_ops(mut ops: &[Op]) -> Result<Vec<u8>> {
 
     let mut data = Vec::new();
     let mut current_point = None;
+    let mut subpath_start = None;
     let f = &mut data;
 
     while ops.len() > 0 {
@@ -592,11 +605,15 @@ pub fn serialize_ops(mut ops: &[Op]) -> Result<Vec<u8>> {
                     writeln!(f, "b*")?;
                     advance += 1;
                 }
-                _ => writeln!(f, "h")?,
+                _ => {
+                    writeln!(f, "h")?;
+                    current_point = subpath_start;
+                }
             }
             Op::MoveTo { p } => {
                 writeln!(f, "{} m", p)?;
                 current_point = Some(p);
+                subpath_start = Some(p);
             }
             Op::LineTo { p } => {
                 writeln!(f, "{} l", p)?;
@@ -612,7 +629,11 @@ pub fn serialize_ops(mut ops: &[Op]) -> Result<Vec<u8>> {
                 }
                 current_point = Some(p);
             },
-            Op::Rect { rect } => writeln!(f, "{} re", rect)?,
+            Op::Rect { rect } => {
+                writeln!(f, "{} re", rect)?;
+                subpath_start = Some(Point { x: rect.x, y: rect.y });
+                current_point = subpath_start;
+            }
             Op::EndPath => writeln!(f, "n")?,
             Op::Stroke => writeln!(f, "S")?,
             Op::FillAndStroke { winding: Winding::NonZero } => writeln!(f, "B")?,
